@@ -118,6 +118,8 @@ def bound_vars(t: Any) -> set:
         elif s[0] == "lam":
             for v in s[1]:
                 out.add(v)
+        elif s[0] == "after-iteration" and len(s) > 3:
+            pat_vars(s[2])
         elif s[0] == "forall-not":
             pat_vars(s[1])
             for c in s[3]:
